@@ -264,7 +264,7 @@ pub fn run(cx: &Ctx) {
             MM { xs, cuts, merges, path }
         })
     };
-    cx.run_pt(&Extremes, cx.by(8000, 80000), cx.workers, strat, "random sequences of length 0..200 with special values, permutations, chunkings, merge trees");
+    cx.run_pt(&Extremes, cx.by(8000, 600000), cx.workers, strat, "random sequences of length 0..200 with special values, permutations, chunkings, merge trees");
 }
 
 pub fn replay(check: &str, case: &serde_json::Value) -> Option<Result<(), String>> {
